@@ -84,6 +84,7 @@ COVER = [
     ({"BOUND-SAMESRC"}, {"GEN-BLOCKS", "GEN-DEFS", "GEN-EXPR"}),
     ({"RULE-COHERENCE"}, {"GEN-KERNEL"}),
     ({"PERM-FLAG-IMPL"}, {"GEN-INTEGRAL-DRIVER"}),
+    ({"EXPR-COEF-POS"}, {"GEN-EXPRESSION-IR", "ANALYZE-OBJECTS"}),
     ({"IDX-SPACE", "PERM-CONSISTENT", "FORM-KERNEL-ALIGN"}, {"GEN-FORM"}),
 ]
 
@@ -140,6 +141,7 @@ DEMOTE = {
     "BOUND-SAMESRC": ({"GEN-BLOCKS", "GEN-DEFS", "GEN-EXPR"}, lambda key: True),
     "RULE-COHERENCE": ({"GEN-KERNEL"}, lambda key: True),
     "PERM-FLAG-IMPL": ({"GEN-INTEGRAL-DRIVER"}, lambda key: True),
+    "EXPR-COEF-POS": ({"GEN-EXPRESSION-IR", "ANALYZE-OBJECTS"}, lambda key: True),
     "EXPR-LAYOUT": ({"GEN-EXPR"}, lambda key: any(t in key for t in (":multi-index-count", ":index-roles:", ":factor-of-component"))),
 }
 
